@@ -323,9 +323,19 @@ func bundleURL(t *rapid.T, label string) string {
 }
 
 // Gen draws a bundle spec. Roughly 15% of the specs must be refused by the writer.
-func Gen(t *rapid.T) *Spec {
+func Gen(t *rapid.T) *Spec { return genSpec(t, false) }
+
+// GenWide is Gen plus, now and then, bundles with 23..257 exchanges.
+func GenWide(t *rapid.T) *Spec { return genSpec(t, true) }
+
+func genSpec(t *rapid.T, wide bool) *Spec {
 	s := &Spec{Version: rapid.SampledFrom([]string{"b1", "b2"}).Draw(t, "version")}
 	n := rapid.IntRange(0, 8).Draw(t, "nex")
+	many := wide && rapid.IntRange(0, 14).Draw(t, "many") == 0
+	if many {
+		// enough exchanges to push the responses array / index map head into the next length class
+		n = rapid.SampledFrom([]int{23, 24, 25, 30, 255, 256, 257}).Draw(t, "nmany")
+	}
 	seen := map[string]bool{}
 	for i := 0; i < n; i++ {
 		u := bundleURL(t, "url")
@@ -338,6 +348,11 @@ func Gen(t *rapid.T) *Spec {
 			}
 		}
 		seen[key] = true
+		if many {
+			s.Exchanges = append(s.Exchanges, ExSpec{URL: fmt.Sprintf("https://a.example/many/%d", i), Status: 200, BodyLen: i % 30, BodyTag: uint64(i),
+				Headers: []gen.HeaderKV{{Name: "Content-Type", Values: []string{"text/plain"}}}})
+			continue
+		}
 		s.Exchanges = append(s.Exchanges, exchange(t, u))
 	}
 	// duplicate URL without variants (must fail in b2; in b1 "no Variants header")
